@@ -74,13 +74,15 @@ class LoopStep:
         self.dom = cfg.dominators(f)
         rs = ret_sources(f)
         srcs = rs.get(err_code)
-        if not srcs or len(srcs) != 1:
-            broken('retrieve(): expected exactly one return site for error code %d, found %r' % (err_code, srcs))
-        self.err_block = srcs[0]
+        if not srcs:
+            broken('retrieve(): no return site for error code %d' % err_code)
         pk = peek_blocks(f, width)
-        self.P = nearest_dominating(f, self.err_block, pk, self.dom)
-        if self.P is None:
-            broken('retrieve(): no PEEK(%d) dominates the return of error %d' % (width, err_code))
+        heads = {nearest_dominating(f, sb, pk, self.dom) for sb in srcs}
+        if len(heads) != 1 or None in heads:
+            broken('retrieve(): the return sites of error %d (%r) do not belong to one PEEK(%d) step' % (
+                err_code, srcs, width))
+        self.err_block = srcs[0]
+        self.P = heads.pop()
         self.peek = pk[self.P]
         self.vreg = self.peek.ops[0][1]
         self.region = {b for b in f.blocks if b in self.dom and self.P in self.dom[b]}
@@ -585,3 +587,4 @@ def run(ctx):
     run_bound_rule(ctx, prog)
     import codecrules
     codecrules.emit_symbol_law(ctx, prog, 'C05')
+    codecrules.emit_state_signatures(ctx, prog, 'C05')
